@@ -208,6 +208,8 @@ def check_forwarding(ctx: Context, rep, rule: str, funcs: list[FunctionInfo],
                         continue
                     construct = f"{a.qualname} -> {b.qualname} [{p}]"
                     exc = exceptions.get((a.qualname, b.qualname, p))
+                    if exc is None and a.cls is not None:
+                        exc = exceptions.get((a.cls.name + ".*", b.qualname, p))
                     expr = passed_expr(call, b, p)
                     if exc is not None:
                         rep.info(rule, f"table exception {construct}: {exc}; "
@@ -454,3 +456,27 @@ def interproc(ctx: Context, base_factory, max_depth: int = 2):
         return hook
 
     return factory
+
+
+ITERATOR_CTORS = {"iter", "aiter", "map", "filter", "zip", "enumerate",
+                  "reversed"}
+
+
+def is_iterator_expr(ctx: Context, fn: FunctionInfo, e: ast.AST | None) -> bool:
+    """Does `e` evaluate to a one-shot iterator object (so that partial
+    consumers continue where the previous one stopped)?"""
+    if isinstance(e, ast.GeneratorExp):
+        return True
+    if not isinstance(e, ast.Call):
+        return False
+    if isinstance(e.func, ast.Name) and e.func.id in ITERATOR_CTORS:
+        return True
+    q = ctx.repo.qualify(fn.module, e.func) or ""
+    if q.startswith("itertools.") or q.startswith("asyncstdlib."):
+        return True
+    for t in ctx.internal_targets(fn, e):
+        if not isinstance(t.node, ast.Lambda) and any(
+                isinstance(x, (ast.Yield, ast.YieldFrom))
+                for x in t.body_nodes()):
+            return True
+    return False
